@@ -122,6 +122,30 @@ def urlRoundTripOn (rs : List Cps) : Bool :=
   rs.all fun r => !(storedOk r && noUrlControl r) || writtenUrlDenote (helperUri r) == some (storedDenote r)
 
 
+/-! small-scope sample of `calc()` expressions (used by a kernel-run test in `Props/C18.lean`) -/
+
+def calcOperands : List (NumType × Cps) :=
+  [(.dimension, cps "1px"), (.dimension, cps "-2px"), (.number, cps "+.50")]
+def calcOps : List Cps := [cps "+", cps "-", cps "*", cps "/"]
+def calcSpacerPrefs : List Prefs :=
+  [{ Prefs.default with spacer := [] }, { Prefs.default with listItemSpacer := [] },
+   { Prefs.default with spacer := [], listItemSpacer := [] }]
+
+/-- `calc(a o1 b o2 c)`, white-space items around the first operator only, the third operand a nested `calc(c)` -/
+def calcSamples : List (List CalcTok × Cps) :=
+  calcOperands.flatMap fun a => calcOperands.flatMap fun b => [((NumType.percentage, cps "-10%") : NumType × Cps)].flatMap fun c =>
+    calcOps.flatMap fun o1 => [cps "-", cps "*"].map fun o2 =>
+      let txt := fun (x : NumType × Cps) => match roundTrip Prefs.default x.1 x.2 with | .ok t => t | .error _ => []
+      ([.func (cps "calc("), .operand a.1 a.2, .s, .op o1, .s, .operand b.1 b.2, .op o2,
+        .openNested, .func (cps "calc("), .operand c.1 c.2, .rparen, .closeNested, .rparen],
+       cps "calc(" ++ txt a ++ [0x20] ++ o1 ++ [0x20] ++ txt b ++ [0x20] ++ o2 ++ [0x20] ++ cps "calc(" ++ txt c ++ cps "))")
+
+def calcSamplesOk : Bool :=
+  calcSamples.all fun s =>
+    fmtCalc exactOps Prefs.default s.1 == .ok s.2 &&
+    calcSpacerPrefs.all fun p => fmtCalc exactOps p s.1 == .ok s.2
+
+
 /-- look a name up in the independent CSS3 table -/
 def css3Lookup (name : Cps) : List (Cps × Nat × Nat × Nat × Nat) → Option (Nat × Nat × Nat × Nat)
   | [] => none
